@@ -91,8 +91,25 @@ def c10Real (allow v6ok : Bool) (dest : TT.Ip.Dest) : String :=
     | [] => "-"
   s!"{statusOf err} {warn} {if w.contains .challenge then 1 else 0} {if w.contains .dnshost then 1 else 0}"
 
+/-- a CONNECT through the real SOCKS5 forwarder whose upstream answers the request with this -/
+def c10Socks (a : SocksAnswer) : String :=
+  match socksOutcome a with
+  | .err e =>
+    let w := warnOf e
+    let warn := match w.filterMap (fun x => match x with | .warn c => some c | _ => none) with
+      | c :: _ => toString c
+      | [] => "-"
+    s!"{statusOf e} {warn} {if w.contains .challenge then 1 else 0} {if w.contains .dnshost then 1 else 0}"
+  | _ => "200 - 0 0"
+
 def c10 (toks : List String) : String :=
   match toks with
+  | ["socks", "closed"] => c10Socks .closed
+  | ["socks", "malformed"] => c10Socks .malformed
+  | ["socks", rep] =>
+    match rep.toNat? with
+    | some r => c10Socks (.reply r)
+    | none => "bad-op"
   | "real" :: allow :: v6ok :: kind :: rest =>
     let nums := rest.map String.toNat!
     match kind with
